@@ -4,6 +4,7 @@ package main
 // and canonical formatting of what the implementation returns.
 
 import (
+	"time"
 	"encoding/hex"
 	"fmt"
 	"math"
@@ -204,9 +205,84 @@ func namedStruct(idx int64) any {
 	case 10:
 		// embedded pointers that point somewhere
 		return &embW2{embInner: &embInner{Secret: "s", Pub: 3}, EmbBase: &EmbBase{ID: 4, Tag: "u"}, Name: "w3"}
+	case 11:
+		// an ordinary struct that also implements fmt.Stringer (value receiver): still a struct
+		return mPrice{Amount: 12, Cur: "EUR"}
+	case 12:
+		// a struct that implements error
+		return mErr{Code: 7, Msg: "boom"}
+	case 13:
+		// a pointer whose type has String, MarshalJSON and MarshalText (pointer receivers)
+		return &mDoc{Title: "T", N: 2}
+	case 14:
+		return mLang("en") // a named string type with a String method: its bytes, not the method's text
+	case 15:
+		return mLevel(3) // a named integer type with a String method: the number
+	case 16:
+		return time.Duration(1500000000) // int64 underneath
+	case 17:
+		// nil containers of static types in struct fields: empty array / empty object, a nil pointer is nil
+		return mBag{}
+	case 18:
+		return mRatio(2.5)
+	case 19:
+		return mFlag(true)
+	case 20:
+		// the same methods on the elements of containers
+		return map[string]any{"prices": []mPrice{{1, "a"}, {2, "b"}}, "byName": map[string]mPrice{"x": {3, "c"}}, "langs": []mLang{"de", "fr"}, "levels": []mLevel{1, 2},
+			"errs": []error{mErr{1, "e1"}}, "strs": []fmt.Stringer{mPrice{4, "d"}, mLang("it")}}
 	}
 	type Rec struct{}
 	return Rec{}
+}
+
+// types that carry methods a converter might be tempted to call (fmt.Stringer, error, json / text marshalers)
+type mPrice struct {
+	Amount int
+	Cur    string
+}
+
+func (p mPrice) String() string { return fmt.Sprintf("%d %s", p.Amount, p.Cur) }
+
+type mErr struct {
+	Code int
+	Msg  string
+}
+
+func (e mErr) Error() string { return "E" + e.Msg }
+
+type mDoc struct {
+	Title string
+	N     int
+}
+
+func (d *mDoc) String() string                { return "doc:" + d.Title }
+func (d *mDoc) MarshalJSON() ([]byte, error)  { return []byte(`"json"`), nil }
+func (d *mDoc) MarshalText() ([]byte, error)  { return []byte("text"), nil }
+func (d *mDoc) GoString() string              { return "gostring" }
+
+type mLang string
+
+func (l mLang) String() string { return "language " + string(l) }
+
+type mLevel int
+
+func (l mLevel) String() string { return "LEVEL" }
+
+type mRatio float64
+
+func (r mRatio) String() string { return "ratio" }
+
+type mFlag bool
+
+func (f mFlag) String() string { return "flag" }
+
+type mBag struct {
+	Tags  []string
+	Items []any
+	Attrs map[string]string
+	Any   map[string]any
+	Ptr   *[]int
 }
 
 // types for embedded fields (package level: embedding needs named types)
@@ -438,6 +514,10 @@ func (g *GV) Realise() any {
 		return pv.Interface()
 	case "L":
 		if g.NilRef {
+			if g.Typed {
+				var s []string
+				return s
+			}
 			var s []any
 			return s
 		}
@@ -455,6 +535,10 @@ func (g *GV) Realise() any {
 		return out
 	case "M":
 		if g.NilRef {
+			if g.Typed {
+				var m map[string]int
+				return m
+			}
 			var m map[string]any
 			return m
 		}
